@@ -5,96 +5,15 @@
 package main
 
 import (
-	"bytes"
 	"encoding/hex"
-	"encoding/json"
-	"fmt"
-	"strconv"
-	"strings"
 
 	"git.torproject.org/pluggable-transports/snowflake.git/v2/common/util"
+	"git.torproject.org/pluggable-transports/snowflake.git/v2/zz_verif/sessdesc/jvalue"
 	"git.torproject.org/pluggable-transports/snowflake.git/v2/zz_verif/wire"
 	"github.com/pion/webrtc/v3"
 )
 
-// value renders the generic JSON value of text as encoding/json sees it (member order and
-// duplicates kept), or "invalid".
-func value(text []byte) string {
-	if !json.Valid(text) {
-		return "invalid"
-	}
-	dec := json.NewDecoder(bytes.NewReader(text))
-	dec.UseNumber()
-	var atoms []string
-	if err := walk(dec, &atoms); err != nil {
-		return "invalid"
-	}
-	return strings.Join(atoms, ",")
-}
-
-func walk(dec *json.Decoder, atoms *[]string) error {
-	tok, err := dec.Token()
-	if err != nil {
-		return err
-	}
-	switch t := tok.(type) {
-	case nil:
-		*atoms = append(*atoms, "n")
-	case bool:
-		if t {
-			*atoms = append(*atoms, "t")
-		} else {
-			*atoms = append(*atoms, "f")
-		}
-	case json.Number:
-		*atoms = append(*atoms, "d"+hex.EncodeToString([]byte(t.String())))
-	case string:
-		*atoms = append(*atoms, "s"+hex.EncodeToString([]byte(t)))
-	case json.Delim:
-		switch t {
-		case '[':
-			at := len(*atoms)
-			*atoms = append(*atoms, "")
-			n := 0
-			for dec.More() {
-				if err := walk(dec, atoms); err != nil {
-					return err
-				}
-				n++
-			}
-			if _, err := dec.Token(); err != nil {
-				return err
-			}
-			(*atoms)[at] = "a" + strconv.Itoa(n)
-		case '{':
-			at := len(*atoms)
-			*atoms = append(*atoms, "")
-			n := 0
-			for dec.More() {
-				k, err := dec.Token()
-				if err != nil {
-					return err
-				}
-				ks, ok := k.(string)
-				if !ok {
-					return fmt.Errorf("non-string key")
-				}
-				*atoms = append(*atoms, "s"+hex.EncodeToString([]byte(ks)))
-				if err := walk(dec, atoms); err != nil {
-					return err
-				}
-				n++
-			}
-			if _, err := dec.Token(); err != nil {
-				return err
-			}
-			(*atoms)[at] = "o" + strconv.Itoa(n)
-		default:
-			return fmt.Errorf("unexpected delimiter")
-		}
-	}
-	return nil
-}
+func value(text []byte) string { return jvalue.Value(text) }
 
 func typeOf(name string) webrtc.SDPType {
 	switch name {
